@@ -53,6 +53,49 @@ fn observe(x: &FeelNumber, with_literal: bool) -> J {
   rec
 }
 
+/// Child side of the concurrent rendering pass: four threads render all the numbers six times each, in different
+/// orders; returns the (index, text, json) of renderings that differ from the ones made alone.
+pub fn child_case(c: &J) -> J {
+  let items = c["items"].as_array().cloned().unwrap_or_default();
+  let numbers: Vec<Option<FeelNumber>> = items
+    .iter()
+    .map(|it| {
+      let s = &it["stim"];
+      let coef: Vec<u8> = s["coef"].as_array().map(|a| a.iter().map(|d| d.as_u64().unwrap_or(0) as u8).collect()).unwrap_or_default();
+      build(s["neg"] == true, &coef, s["e"].as_i64().unwrap_or(0), s["scale"].as_i64().unwrap_or(0)).map(|x| match s["arith"].as_u64().unwrap_or(0) {
+        1 => x / FeelNumber::from_i128(3),
+        2 => x * FeelNumber::from_i128(7),
+        _ => x,
+      })
+    })
+    .collect();
+  let found = std::sync::Mutex::new(Vec::<J>::new());
+  std::thread::scope(|sc| {
+    for t in 0..4usize {
+      let (numbers, items, found) = (&numbers, &items, &found);
+      sc.spawn(move || {
+        for round in 0..6 {
+          for k in 0..numbers.len() {
+            let i = (k * (t + 1) + round) % numbers.len();
+            if let Some(x) = &numbers[i] {
+              // (a panic of the rendering code is data: an empty text, which denotes nothing)
+              let (text, js) = crate::child::guarded(|| (x.to_string(), x.jsonify())).unwrap_or_default();
+              if items[i]["text"] != text.as_str() || items[i]["json"] != js.as_str() {
+                if let Ok(mut f) = found.lock() {
+                  if f.len() < 20 {
+                    f.push(json!([i, text.chars().take(300).collect::<String>(), js.chars().take(300).collect::<String>()]));
+                  }
+                }
+              }
+            }
+          }
+        }
+      });
+    }
+  });
+  json!({"found": found.into_inner().unwrap_or_default()})
+}
+
 fn build(neg: bool, coef: &[u8], e: i64, scale: i64) -> Option<FeelNumber> {
   let len = coef.len() as i64;
   if len + scale > 34 || e - scale < -6176 || e + len - 1 > 6144 {
@@ -149,6 +192,36 @@ pub fn check(mut ctx: Ctx, replay: Option<J>) -> ! {
   if recs.is_empty() {
     tool_error("no cases");
   }
+  // the same numbers rendered by four threads at once (in a child process with an address-space limit: garbage
+  // may ask for any amount of memory): a text that differs from the one rendered alone is judged by the
+  // specification like every other text (it cannot denote the value if the first one did)
+  if replay.is_none() || replay.as_ref().map_or(false, |r| r["case"]["stimulus"]["concurrent"] == true) {
+    let short: Vec<usize> = (0..stim.len()).filter(|i| recs[*i]["text"].as_str().map_or(false, |t| !t.is_empty() && t.len() < 80)).take(3000).collect();
+    let case = json!({"items": short.iter().map(|i| json!({"stim": stim[*i], "text": recs[*i]["text"], "json": recs[*i]["json"]})).collect::<Vec<_>>()});
+    std::env::set_var("VERIF_CHILD_VMEM_KB", "6000000");
+    let res = crate::child::run_in_children("c07", &tlc.work_dir, &[case], 1, std::time::Duration::from_secs(120));
+    std::env::remove_var("VERIF_CHILD_VMEM_KB");
+    let mut found: Vec<(usize, String, String)> = res[0]["found"].as_array().map(|a| a.iter().map(|f| (short[f[0].as_u64().unwrap_or(0) as usize], f[1].as_str().unwrap_or("").to_string(), f[2].as_str().unwrap_or("").to_string())).collect()).unwrap_or_default();
+    if let Some(d) = res[0]["death"].as_str() {
+      // the process rendering concurrently died (abort, runaway allocation, hang): no text at all
+      ctx.cov("concurrent_rendering_process_died", json!(d));
+      found.push((short[0], String::new(), String::new()));
+    }
+    ctx.cov("numbers_rendered_by_four_threads_at_once", json!(short.len()));
+    for (i, text, js) in found {
+      let coef_len = recs[i]["v"]["c"].as_array().map(|a| a.len()).unwrap_or(0);
+      let mut r = recs[i].clone();
+      r["hint"] = hints(&text, coef_len);
+      r["jhint"] = hints(&js, coef_len);
+      r["text"] = json!(text);
+      r["json"] = json!(js);
+      r["concurrent"] = json!(true);
+      let mut st = stim[i].clone();
+      st["concurrent"] = json!(true);
+      recs.push(r);
+      stim.push(st);
+    }
+  }
   // anti-vacuity: a text with the point one place off must be rejected
   if replay.is_none() {
     let x = number_from_parts(false, &[1, 5], -1);
@@ -168,7 +241,7 @@ pub fn check(mut ctx: Ctx, replay: Option<J>) -> ! {
     let r = &recs[*i];
     let e = r["v"]["e"].as_i64().unwrap_or(0);
     let region = if r["v"]["s"] == 1 && e + (r["v"]["c"].as_array().map(|a| a.len() as i64).unwrap_or(0)) - 1 < -6 { "negative-below-1E-6" } else { "general" };
-    let sig = format!("{}:{}", why.split(':').next().unwrap_or("?").trim(), region);
+    let sig = if r["concurrent"] == true { "rendered-while-other-threads-render:text-differs-from-the-one-rendered-alone".to_string() } else { format!("{}:{}", why.split(':').next().unwrap_or("?").trim(), region) };
     let mut small = r.clone();
     for k in ["text", "json"] {
       if let Some(t) = small[k].as_str() {
